@@ -641,6 +641,53 @@ func keyLengthLayerRun(ctx *core.Ctx, op string) {
 	}
 }
 
+// bigGroupLayerRun: 100 rows in three groups of 1, 9 and 90 rows (interleaved), alone and split
+// further by a second (string, with nulls) key: group sizes beyond any unrolled or blocked loop.
+func bigGroupLayerRun(ctx *core.Ctx, op string) {
+	const n = 100
+	k1 := model.Col{Name: "k1", Kind: model.Int}
+	k2 := model.Col{Name: "k2", Kind: model.String}
+	for r := 0; r < n; r++ {
+		switch {
+		case r == 37:
+			k1.Cells = append(k1.Cells, model.I(0))
+		case r%11 == 3:
+			k1.Cells = append(k1.Cells, model.I(1))
+		default:
+			k1.Cells = append(k1.Cells, model.I(2))
+		}
+		if r%4 == 3 {
+			k2.Cells = append(k2.Cells, model.Null())
+		} else {
+			k2.Cells = append(k2.Cells, model.S(string(rune('a'+r%4))))
+		}
+	}
+	f := model.Frame{N: n, Cols: []model.Col{k1, k2}}
+	for _, vc := range c04ValCols {
+		if op == "distinct" && vc.Name != "vb" {
+			continue
+		}
+		nc := model.Col{Name: vc.Name, Kind: vc.Kind, EnumVals: vc.EnumVals}
+		for r := 0; r < n; r++ {
+			nc.Cells = append(nc.Cells, vc.Cells[(r*5+r/6)%6])
+		}
+		f.Cols = append(f.Cols, nc)
+	}
+	for _, by := range [][]string{{"k1"}, {"k1", "k2"}, {"k2"}} {
+		for _, gn := range []bool{false, true} {
+			for shape := 0; shape < model.NShapes; shape++ {
+				if !ctx.Mine() {
+					continue
+				}
+				c := groupCase{Op: op, Frame: f, Shape: shape, By: by, GroupNull: gn}
+				ctx.Exec(c, func() *core.Failure { return runGroupCase(c) })
+				ctx.Outcome("api/big-groups")
+				ctx.Nontrivial(fmt.Sprintf("big|%v|%v|%d", by, gn, shape))
+			}
+		}
+	}
+}
+
 func init() {
 	common := []string{
 		"layer 1 drives the repository's hash table (internal/grouper) through its Comparable interface with harness-chosen hash values; layer 2 uses the public API with the real runtime hash",
@@ -664,6 +711,7 @@ func init() {
 			groupLayerRun(ctx, "groupby")
 			permLayerRun(ctx, "groupby")
 			keyLengthLayerRun(ctx, "groupby")
+			bigGroupLayerRun(ctx, "groupby")
 		},
 		Replay: replayGroup,
 	})
@@ -683,6 +731,7 @@ func init() {
 			groupLayerRun(ctx, "distinct")
 			permLayerRun(ctx, "distinct")
 			keyLengthLayerRun(ctx, "distinct")
+			bigGroupLayerRun(ctx, "distinct")
 		},
 		Replay: replayGroup,
 	})
